@@ -118,7 +118,7 @@ def _get_handshake_headers(
     if not options.get("connection"):
         headers.append("Connection: Upgrade")
     else:
-        headers.append(options["connection"])
+        headers.append(f'Connection: {options["connection"]}')
 
     if subprotocols := options.get("subprotocols"):
         headers.append(f'Sec-WebSocket-Protocol: {",".join(subprotocols)}')
